@@ -1,5 +1,6 @@
 //! Interpreter of the request protocol on the REAL crate (built from /repo's working tree).
 
+use crate::expr::*;
 use crate::util::*;
 use std::fs;
 use std::io::{BufRead, BufReader, BufWriter, Write};
@@ -94,6 +95,26 @@ pub fn exec_line(sess: &mut Session, line: &str) -> String {
             let tag = str_of_hex(toks[1]).unwrap();
             let lang = msi::Language::from_tag(&tag);
             format!("{} {}", lang.code(), hex_of_str(lang.tag()))
+        }
+        "eval" => {
+            // eval <row> <expr>: build through the public constructors, evaluate on a row
+            let (row, n) = parse_row(&toks[1..]).unwrap();
+            let (e, _) = E::parse(&toks[1 + n..]).unwrap();
+            let cols: Vec<msi::Column> = row
+                .iter()
+                .map(|(name, v)| match v {
+                    V::Str(_) => msi::Column::build(name.as_str()).nullable().string(0),
+                    _ => msi::Column::build(name.as_str()).nullable().int32(),
+                })
+                .collect();
+            let vals: Vec<msi::Value> = row.iter().map(|(_, v)| v.to_msi()).collect();
+            let r = msi::verif::make_row(cols, vals);
+            let x = e.to_msi();
+            V::of_msi(&x.eval(&r)).tok()
+        }
+        "fmt" => {
+            let (e, _) = E::parse(&toks[1..]).unwrap();
+            hex_of_str(&e.to_msi().to_string())
         }
         "ts_rt" => {
             let secs: i64 = toks[1].parse().unwrap();
